@@ -20,6 +20,7 @@ def bounds(tier):
     return {"line_shapes": len(shapes(0)), "sequence_length": 4 if tier == "quick" else 5,
             "mutations_of_wellformed": "single edits on 3 changelogs + pairs on %s" % ("1" if tier == "quick" else "3"),
             "edit_history_depth": 2 if tier == "quick" else 3, "edit_ops": len(OPS),
+            "input_forms": "sequences of length <= %d also as bytes, lists/tuples/generators of lines, StringIO, BytesIO, bytes lines: same warnings/strictness/blocks/text" % FORMS_MAXLEN[tier],
             "pristine_state_pass": "all sequences of length <= %d and all single-line mutations, each evaluated in a process forked from a zygote that only imported the library" % (3 if tier == "quick" else 4)}
 
 
@@ -57,6 +58,9 @@ def shapes(seed):
         "Old Changelog:",
         "   ",
     ]
+
+
+FORMS_MAXLEN = {"quick": 3, "thorough": 4}
 
 
 def extra_shapes(seed):
@@ -168,6 +172,46 @@ def check_text(text, aea):
         if bad:
             return bad, None
     return [], ("%d-blocks/%s/%s" % (min(len(c), 3), "warn" if w else "clean", oc))
+
+
+# ---------------------------------------------------------------- input forms
+
+def forms(text):
+    import io
+    b = text.encode("utf-8")
+    return [("bytes", lambda: b), ("lines", lambda: text.splitlines()), ("lines-nl", lambda: text.splitlines(True)),
+            ("tuple", lambda: tuple(text.splitlines())), ("generator", lambda: (l for l in text.splitlines(True))),
+            ("stringio", lambda: io.StringIO(text)), ("bytesio", lambda: io.BytesIO(b)),
+            ("bytes-lines", lambda: b.splitlines(True))]
+
+
+def fingerprint(src, aea):
+    """what the statement talks about, for one way of supplying the text"""
+    from debian.changelog import ChangelogCreateError
+    c, w, e = run(src() if callable(src) else src, allow_empty_author=aea)
+    if e is not None:
+        return ("lenient-raises", type(e).__name__)
+    _c2, _w2, e2 = run(src() if callable(src) else src, allow_empty_author=aea, strict=True)
+    try:
+        out = str(c)
+    except ChangelogCreateError:
+        out = "<unformattable>"
+    except Exception as ex:
+        out = "<str raises %s>" % type(ex).__name__
+    return (bool(w), type(e2).__name__ if e2 is not None else None, blocks(c), out)
+
+
+def check_forms(text, aea):
+    """the same text supplied in the other documented forms gives the same changelog"""
+    if not text.strip():
+        return []           # an empty text is reported differently per form ('Empty changelog file' / 'Found eof')
+    ref = fingerprint(text, aea)
+    for name, mk in forms(text):
+        got = fingerprint(mk, aea)
+        if got != ref:
+            what = "warns" if got[0] != ref[0] else "strict" if got[1] != ref[1] else "blocks" if got[2] != ref[2] else "text"
+            return [("chlog/input-form/%s/%s" % (name, what), ref, got)]
+    return []
 
 
 # ---------------------------------------------------------------- (b) mutations of well-formed changelogs
@@ -320,6 +364,10 @@ def run_unit(u, tier, seed):
                 bad, oc = check_text(text, aea)
                 part.traces += 1
                 part.evaluations += 1
+                if not bad and len(seq) <= FORMS_MAXLEN[tier]:
+                    bad = check_forms(text, aea)
+                    part.evaluations += 1
+                    case = dict(case, forms=True)
                 for sig, exp, obs in bad:
                     part.violation(sig, case, exp, obs, rank=len(seq))
                 if oc:
@@ -424,7 +472,10 @@ def replay(case):
     sh = shapes(seed)
     if case["kind"] == "seq":
         text = "\n".join(sh[i] for i in case["seq"]) + "\n" if case["seq"] else ""
-        return check_text(text, case["aea"])[0]
+        bad = check_text(text, case["aea"])[0]
+        if not bad and case.get("forms"):
+            bad = check_forms(text, case["aea"])
+        return bad
     if case["kind"] == "text":
         return check_text(case["text"], case["aea"])[0]
     if case["kind"] == "mut":
